@@ -3,6 +3,7 @@
 use super::*;
 use crate::error::verif_harness as vh;
 use crate::error::verif_harness::{ModelKey, NullBe, RecBe, is_model_ciphertext_of, MODEL_OVERHEAD};
+use crate::blob::BlobLocation;
 use std::sync::atomic::Ordering::SeqCst;
 
 static EMPTY: [u8; 0] = [];
@@ -270,3 +271,89 @@ fn tamper_check<const ZSTD: bool>() {
 
 /// accessors for other harness modules (fields are private to backend::decrypt)
 pub(crate) fn settings<C: CryptoKey>(be: &DecryptBackend<C>) -> (Option<i32>, bool) { (be.zstd, be.extra_verify) }
+
+// ---------------------------------------------------------------------------
+// C04: a decrypt failure always becomes a read failure (no fallback to raw bytes)
+// ---------------------------------------------------------------------------
+static REJECT: std::sync::atomic::AtomicBool = std::sync::atomic::AtomicBool::new(false);
+/// key whose MAC check fails exactly when the harness says so (models "any tampering makes decryption fail":
+/// the AEAD's job, assumed); otherwise it strips the 16+16 byte framing
+#[derive(Clone, Copy, Debug)]
+pub(crate) struct FlagKey;
+impl CryptoKey for FlagKey {
+    fn decrypt_data(&self, data: &[u8]) -> RusticResult<Vec<u8>> {
+        if REJECT.load(SeqCst) || data.len() < 32 { return Err(RusticError::new(ErrorKind::Cryptography, "mac")); }
+        let n = data.len() - 32;
+        let mut out = Vec::with_capacity(8);
+        let mut j = 0;
+        while j < n { out.push(data[16 + j]); j += 1; }
+        Ok(out)
+    }
+    fn encrypt_data(&self, data: &[u8]) -> RusticResult<Vec<u8>> {
+        let mut out = Vec::with_capacity(48);
+        let mut i = 0; while i < 16 { out.push(0); i += 1; }
+        let mut j = 0; while j < data.len() { out.push(data[j]); j += 1; }
+        let mut k = 0; while k < 16 { out.push(0); k += 1; }
+        Ok(out)
+    }
+}
+
+static STORED: [u8; 36] = [0, 0, 0, 0, 0, 0, 0, 0, 0, 0, 0, 0, 0, 0, 0, 0, b'{', 0xFD, 7, 9, 0, 0, 0, 0, 0, 0, 0, 0, 0, 0, 0, 0, 0, 0, 0, 0];
+
+//@ harness: c04_decrypt_failure_is_read_failure
+//@ prop: C04 C05
+//@ tier: quick
+//@ timeout: 900
+//@ mem: 10
+//@ kernel: DecryptBackend::{decrypt, decrypt_file, read_encrypted_full}, DecryptReadBackend::{read_encrypted_from_partial, read_encrypted_partial}
+//@ bound: a stored 36-byte file/blob (4 payload bytes in a 16+16 byte frame) served by a mock store; the key's MAC verdict is a symbolic flag; read through one of read_encrypted_full / read_encrypted_partial (symbolic offset/length inside or outside the file) / read_encrypted_from_partial with symbolic recorded uncompressed length (None / any u32)
+//@ oracle: if the key rejects, every read path returns Err - never raw or partial bytes; if the key accepts, a result is returned only when the recorded uncompressed length matches the decompressed length, otherwise Err; no panic for any offset/length
+//@ stub: CryptoKey = FlagKey (MAC verdict is a harness flag: the AEAD's tamper detection is assumed, its strength is outside); zstd::stream::decode_all -> 0xFD framing; Backtrace::capture
+//@ outside: cryptographic strength of Poly1305-AES, nonce uniqueness, key files / passwords / scrypt
+#[kani::proof]
+#[kani::unwind(40)]
+#[kani::stub(std::backtrace::Backtrace::capture, crate::error::verif_harness::stub_backtrace_capture)]
+#[kani::stub(alloc::fmt::format, crate::error::verif_harness::stub_format)]
+#[kani::stub(crate::error::RusticError::new, crate::error::verif_harness::stub_rustic_new)]
+#[kani::stub(crate::error::RusticError::attach_context, crate::error::verif_harness::stub_attach_context)]
+#[kani::stub(crate::error::RusticError::attach_source, crate::error::verif_harness::stub_attach_source)]
+#[kani::stub(zstd::stream::decode_all, crate::error::verif_harness::stub_decode_all)]
+pub(crate) fn c04_decrypt_failure_is_read_failure() {
+    let rec = Arc::new(RecBe::new(&STORED));
+    let be = DecryptBackend::new(rec.clone() as Arc<dyn WriteBackend>, FlagKey);
+    let reject: bool = kani::any();
+    REJECT.store(reject, SeqCst);
+    let id = vh::mk_id(1);
+    let which: u8 = kani::any();
+    kani::assume(which < 3);
+    let ok = match which {
+        0 => { let r = be.read_encrypted_full(FileType::Snapshot, &id); let ok = r.is_ok();
+               if let Ok(b) = &r { assert!(b.len() == 4 && b[0] == b'{' && b[3] == 9); }
+               std::mem::forget(r); ok }
+        1 => {
+            let ul = std::num::NonZeroU32::new(kani::any());
+            let loc = BlobLocation { offset: kani::any(), length: kani::any(), uncompressed_length: ul };
+            let r = be.read_encrypted_partial(FileType::Pack, &id, false, loc);
+            let ok = r.is_ok();
+            if let Ok(b) = &r {
+                // only a complete frame decrypts; with the whole file: payload is '{',0xFD,7,9 - compressed reading strips 0xFD? no: payload[0] is '{'
+                assert!(loc.offset as usize + loc.length as usize <= STORED.len() && loc.length >= 32);
+                match ul { None => assert!(b.len() == loc.length as usize - 32), Some(u) => assert!(b.len() == u.get() as usize) }
+            }
+            std::mem::forget(r); ok }
+        _ => {
+            let ul = std::num::NonZeroU32::new(kani::any());
+            // frame whose payload is a model-compressed blob: 0xFD, 7, 9
+            let r = be.read_encrypted_from_partial(&STORED[1..36], ul);
+            let ok = r.is_ok();
+            if let Ok(b) = &r {
+                match ul { None => assert!(b.len() == 3), Some(u) => { assert!(u.get() == 2 && b.len() == 2 && b[0] == 7 && b[1] == 9); } }
+            }
+            std::mem::forget(r); ok }
+    };
+    if reject { assert!(!ok); }
+    kani::cover!(reject, "key rejects");
+    kani::cover!(!reject && ok && which == 2, "compressed blob accepted with the right length");
+    kani::cover!(!reject && !ok && which == 2, "wrong recorded length refused");
+    std::mem::forget(be); std::mem::forget(rec);
+}
